@@ -513,9 +513,9 @@ CHECKS["C15"]["assumptions"] = COMMON_ASSUME + CONC_ASSUME + SQL_ASSUME
 
 CHECKS["C06"] = {
     "level": "other",
-    "explanation": "Sequential part: the VM corpus (C23) and the postings path (C25) decide that a committed transaction never takes a non-world source below min(initial balance, -allowance) for symbolic amounts, balances and allowances; the revert clause (non-forced revert refused exactly when some non-world account would end negative, never a panic) is decided by the revert harnesses on 8 transaction shapes. Concurrent part: two writers as logical threads on the store model in concurrent mode, every interleaving at statement boundaries, amounts / balances / allowance symbolic: two spenders of one account (default allowance and 'allowing overdraft up to X'), a spender racing the non-forced revert of the transfer that funded it: the committed balance is never below the allowance, equals the initial balance minus the committed writes, a refused writer is refused for funds (justified by the committed balance) or by a deadlock.",
+    "explanation": "Sequential part: the VM corpus (C23) and the postings path (C25) decide that a committed transaction never takes a non-world source below min(initial balance, -allowance) for symbolic amounts, balances and allowances; the revert clause (non-forced revert refused exactly when some non-world account would end negative, never a panic) is decided by the revert harnesses on 8 transaction shapes. Concurrent part: two writers as logical threads on the store model in concurrent mode, every interleaving at statement boundaries, amounts / balances / allowance symbolic: two spenders of one account (default allowance and 'allowing overdraft up to X'), two writers overdrawing a never-used account within an allowance (recorded finding), a spender racing the non-forced revert of the transfer that funded it: the committed balance is never below the allowance, equals the initial balance minus the committed writes, a refused writer is refused for funds (justified by the committed balance) or by a deadlock.",
     "bounds": {"quick": "2 concurrent writers, all interleavings at the statement boundaries through which transactions interact; 3 race shapes; amounts and balances symbolic in the CONCS harnesses; " + REVERT_SHAPES, "thorough": "same"},
-    "outside": "never-used (account, asset) pairs under concurrency: what the second writer reads after waiting on the first writer's insert hinges on PostgreSQL's snapshot rule for a data-modifying CTE, which this sandbox cannot test — the harness only races on rows that exist (suspicion recorded in DESIGN.md, not claimed either way); 3 and more writers; the row-lock behaviour of PostgreSQL itself (trusted model)",
+    "outside": "3 and more writers; the row-lock behaviour of PostgreSQL itself (trusted model); the never-used-pair race is decided under PostgreSQL's documented one-snapshot rule for a statement with a data-modifying CTE (recorded finding: model-level, not runnable here)",
     "assumptions": COMMON_ASSUME + CONC_ASSUME,
     "units": [
         conc_unit("^Harness_CONCS?_two_spenders", "^(C06:|no-panic)"),
